@@ -15,6 +15,7 @@
    (it may add any other entry).  [i_hash = -1] stands for unhashable data. *)
 From Coq Require Import List ZArith Bool.
 From NT Require Import Sx Rose DictList DictListProofs CaseC14 CaseC14Facts.
+From NT Require MiscMapper MiscMapperProofs.   (* part MAPPER, imported at the end of this file *)
 From NTGen Require Import Generated.
 Import ListNotations.
 
@@ -280,3 +281,85 @@ Proof. exact ex_not_unique. Qed.
 Theorem C14_generated_facts_present : GEN_DICTLIST_OK = true.
 Proof. reflexivity. Qed.
 Print Assumptions C14_generated_facts_present.
+
+(* ==== PART MAPPER: common.call_mapper (model theories/Forest/MiscMapper.v, correspondence Cases/CaseMiscMapper.v,
+   harness parts_misc.MAPPER).  A callback is a script [CB body ret]: mutations of the dict it is handed, then how it
+   ends ([RNone] returns None, [RSame] returns the dict itself, [RVal v] another object of value v, [RRaise c]).
+   [OData d] = the caller holds the data dict object itself (content d), [OVal v d] = another object of value v. ==== *)
+Import MiscMapper MiscMapperProofs.
+
+(* no mapper: the dict itself, untouched *)
+Theorem C14_mapper_absent : forall d, call_mapper None d = OData d.
+Proof. exact cm_no_mapper. Qed.
+Print Assumptions C14_mapper_absent.
+
+(* ANY result other than None is used as it is – whatever its truth value – and the dict keeps the callback's mutations *)
+Theorem C14_mapper_value_used_as_is : forall body v d,
+  v <> PNone -> call_mapper (Some (CB body (RVal v))) d = OVal v (apply_mops d body).
+Proof. exact cm_value_used_as_is. Qed.
+Print Assumptions C14_mapper_value_used_as_is.
+
+(* in particular the falsy ones: 0, "", (), False, [], {}, 0.0, ... *)
+Theorem C14_mapper_falsy_value_used_as_is : forall body v d,
+  truthy v = false -> v <> PNone -> call_mapper (Some (CB body (RVal v))) d = OVal v (apply_mops d body).
+Proof. exact cm_falsy_used_as_is. Qed.
+Print Assumptions C14_mapper_falsy_value_used_as_is.
+
+(* None selects the dict object, as the callback left it *)
+Theorem C14_mapper_none_selects_mutated_dict : forall body d,
+  call_mapper (Some (CB body RNone)) d = OData (apply_mops d body).
+Proof. exact cm_none_selects_mutated. Qed.
+Print Assumptions C14_mapper_none_selects_mutated_dict.
+
+(* the whole rule as a function of how the callback ends (an exception propagates, the mutations done so far stay) *)
+Theorem C14_mapper_rule : forall body r d,
+  call_mapper (Some (CB body r)) d = expected r (apply_mops d body).
+Proof. exact cm_spec. Qed.
+Print Assumptions C14_mapper_rule.
+
+(* the caller holds the data dict itself exactly when there is no mapper, or it returned None, or it returned that dict *)
+Theorem C14_mapper_is_data_iff : forall fn d,
+  (exists d', call_mapper fn d = OData d') <->
+  (fn = None \/ exists body r, fn = Some (CB body r) /\ returns_nothing r).
+Proof. exact cm_is_data_iff. Qed.
+Print Assumptions C14_mapper_is_data_iff.
+
+(* the rule `fn(node, data) or data` (seeded change C05-3) differs from call_mapper exactly on falsy results that are not None *)
+Theorem C14_mapper_or_rule_differs_iff : forall fn d,
+  call_mapper_or fn d <> call_mapper fn d <->
+  exists body v, fn = Some (CB body (RVal v)) /\ truthy v = false /\ v <> PNone.
+Proof. exact cm_or_differs_iff. Qed.
+Print Assumptions C14_mapper_or_rule_differs_iff.
+
+(* a write of the callback is seen by every later reader of the dict, however the callback ends *)
+Theorem C14_mapper_write_visible : forall body k v r d,
+  d_get (after (call_mapper (Some (CB (body ++ [MSet k v]) r)) d)) k = Some v.
+Proof. exact cm_last_write_visible. Qed.
+Print Assumptions C14_mapper_write_visible.
+
+(* the two deserialising call sites: from_dict reads item["data_id"] AFTER the mapper ("mapper may add item['data_id']"),
+   load reads it BEFORE; the value is used by the same rule at both *)
+Theorem C14_mapper_from_dict_sees_mapper_id : forall body v r item,
+  snd (site_from_dict (Some (CB (body ++ [MSet k_data_id v]) r)) item) = Some v.
+Proof. exact site_from_dict_sees_mapper_id. Qed.
+Print Assumptions C14_mapper_from_dict_sees_mapper_id.
+
+Theorem C14_mapper_load_reads_id_first : forall fn fn' data,
+  snd (site_from_list fn data) = snd (site_from_list fn' data) /\ snd (site_from_list fn data) = d_get data k_data_id.
+Proof. exact site_from_list_ignores_mapper_id. Qed.
+Print Assumptions C14_mapper_load_reads_id_first.
+
+(* non-vacuity: seven falsy non-None values are each handed back as they are (and the `or` rule loses every one of them);
+   a None-returning callback's set / rename / set-to-None are all in the dict the caller gets *)
+Example C14_mapper_ex_falsy :
+  forallb (fun v => negb (truthy v) && negb (is_none v)) falsy_values = true /\
+  map (fun v => call_mapper (Some (CB [MSet [107%Z] (PInt 1)] (RVal v))) [([97%Z], PInt 5)]) falsy_values =
+  map (fun v => OVal v [([97%Z], PInt 5); ([107%Z], PInt 1)]) falsy_values /\
+  map (fun v => call_mapper_or (Some (CB [MSet [107%Z] (PInt 1)] (RVal v))) [([97%Z], PInt 5)]) falsy_values =
+  map (fun _ => OData [([97%Z], PInt 5); ([107%Z], PInt 1)]) falsy_values.
+Proof. exact ex_falsy_all_used. Qed.
+
+Example C14_mapper_ex_none :
+  call_mapper (Some (CB [MSet [97%Z] (PInt 6); MRename [97%Z] [98%Z]; MSet [99%Z] PNone] RNone)) [([97%Z], PInt 5); ([120%Z], PStr [])] =
+  OData [([120%Z], PStr []); ([98%Z], PInt 6); ([99%Z], PNone)].
+Proof. exact ex_none_uses_mutated. Qed.
